@@ -84,6 +84,9 @@ def compute_burst_features(df_shape_features, sig, burst_method='cycles', burst_
     # Use dual threshold burst detection
     elif burst_method == 'amp':
 
+        # Copy, 'fs' and 'f_range' are not removed from the dictionary passed by the caller
+        burst_kwargs = dict(burst_kwargs)
+
         fs = burst_kwargs.pop('fs', None)
         f_range = burst_kwargs.pop('f_range', None)
 
